@@ -829,6 +829,10 @@ def _serve_socket_threaded(
             conn.settimeout(None)  # accepted connections must be blocking
             with state_lock:
                 conn_count += 1
+                # A connection that arrives after the idle timer fired (but before
+                # this loop noticed) revokes the shutdown decision: the worker is
+                # no longer idle and must keep accepting while it serves it.
+                shutdown_requested = False
                 _cancel_timer_locked()
             t = threading.Thread(
                 target=_handle,
